@@ -4,8 +4,12 @@
   What is proved here, and at which level:
   * `accessor_total`: for EVERY `GetResponsePayload` / object / key block value (any subset of the optional
     parts missing, any format, compression, curve and object type code) every accessor of objects.go and
-    payloads/get.go returns a value or an error, never a Go panic.  This is the theorem the repair
-    /repo 414a481 made true: `old_accessors_can_panic` exhibits the witnesses for the previous code.
+    payloads/get.go returns a value or an error, never a Go panic — in the library's own code: this is the
+    theorem the repair /repo 414a481 made true (`old_accessors_can_panic` exhibits the witnesses for the
+    previous code).  The full statement "whatever the standard library does" (`C14_accessor_total_full`) is
+    FALSE of HEAD and reported: `Pkcs8Pem` / `PemPrivateKey` hand a transparent EC private key with an
+    oversized scalar to `x509.MarshalPKCS8PrivateKey`, which panics (`accessor_total_full_false`,
+    `pem_panics_only_in_stdlib`).
   * the lexical transport of big integers for EVERY integer (any sign, any size) in the three encodings
     (`ttlv_big_roundtrip`, `xml_big_roundtrip`, `json_big_roundtrip` — both sides of ±2^52) and of byte
     strings (`hex_roundtrip`), from the Go loops `bigIntToBytes` / `bytesToBigInt`.
@@ -27,10 +31,54 @@ open Kmip Kmip.Key
 
 /-! ## 1. Accessor totality -/
 
+/-- the full statement: no accessor panics, whatever the standard library does. -/
+def C14_accessor_total_full : Prop :=
+  ∀ (C : CryptoOps) (a : Accessor) (r : GetResp), ∀ msg, run C a r ≠ .panic msg
+
 /-- 1. no accessor panics: every accessor, every response payload (object type code and object
-    independent, object possibly nil), every key block content, every standard library. -/
-theorem accessor_total (C : CryptoOps) (a : Accessor) (r : GetResp) : ∀ msg, run C a r ≠ .panic msg :=
-  run_noPanic C a r
+    independent, object possibly nil), every key block content — given that the standard library does not.
+    The only standard library function of the accessors that is not assumed total is
+    `x509.MarshalPKCS8PrivateKey` (see `accessor_total_full_false`); it is reached by `Pkcs8Pem` /
+    `PemPrivateKey` only. -/
+theorem accessor_total (C : CryptoOps) (hm : ∀ k, (C.marshalPKCS8 k).NoPanic) (a : Accessor) (r : GetResp) :
+    ∀ msg, run C a r ≠ .panic msg :=
+  run_noPanic C (fun _ => hm) r
+
+/-- 1'. unconditionally for every accessor except the PKCS#8 PEM helpers. -/
+theorem accessor_total_except_pem (C : CryptoOps) (a : Accessor) (r : GetResp)
+    (ha : a ≠ .privPem ∧ a ≠ .getPemPriv) : ∀ msg, run C a r ≠ .panic msg :=
+  run_noPanic C (fun h => by rcases h with h | h <;> simp [h] at ha) r
+
+/-- 1''. and the PEM helper panics exactly when `MarshalPKCS8PrivateKey` panics on the key the accessor
+    built: there is no panic in the library's own code. -/
+theorem pem_panics_only_in_stdlib (C : CryptoOps) (kb : KeyBlockV) (m : String) :
+    privPkcs8Pem C kb = .panic m ↔ ∃ k, privCrypto C kb = .ok k ∧ C.marshalPKCS8 k = .panic m :=
+  privPkcs8Pem_panic_iff C kb m
+
+/-- a decodable object on which HEAD panics: a transparent EC private key whose scalar `D` does not fit
+    the byte size of the curve order (here 2^256 on P-256).  `PrivateKey.ECDSA` accepts any `D`;
+    `Pkcs8Pem` hands the key to `x509.MarshalPKCS8PrivateKey`, whose `D.FillBytes` panics — the toy
+    library reproduces that behaviour of the real one (engine `key`, oracle `accessor-no-panic`). -/
+def oversizedScalar : KeyBlockV :=
+  { format := fTransparentECPrivateKey,
+    keyValue := some { plain := some { material := { ecPriv := some { curve := 7, d := 2 ^ 256 } } } } }
+
+theorem head_pem_can_panic : ∃ m, privPkcs8Pem Toy.ops oversizedScalar = .panic m := by
+  refine ⟨"math/big: buffer too small to fit value", ?_⟩
+  rw [privPkcs8Pem_panic_iff]
+  refine ⟨.ecdsa { crv := 1, d := 2 ^ 256 }, ?_, ?_⟩
+  · rfl
+  · rfl
+
+/-- the full statement is false: REPORTED (finding `key:accessor-panic:priv.pem`). -/
+theorem accessor_total_full_false : ¬ C14_accessor_total_full := by
+  intro h
+  obtain ⟨m, hm⟩ := head_pem_can_panic
+  have := h Toy.ops .privPem (respOf (.privateKey oversizedScalar)) m
+  apply this
+  simp only [run, respOf]
+  rw [hm]
+  rfl
 
 /-- 1a. the key block accessors, for every key block. -/
 theorem keyblock_accessors_total (kb : KeyBlockV) :
@@ -41,11 +89,10 @@ theorem keyblock_accessors_total (kb : KeyBlockV) :
 theorem object_accessors_total (C : CryptoOps) (kb : KeyBlockV) :
     (secretData kb).NoPanic ∧ (symKeyMaterial kb).NoPanic ∧
     (pubRSA C kb).NoPanic ∧ (pubECDSA C kb).NoPanic ∧ (pubCrypto C kb).NoPanic ∧ (pubPkixPem C kb).NoPanic ∧
-    (privRSA C kb).NoPanic ∧ (privECDSA C kb).NoPanic ∧ (privCrypto C kb).NoPanic ∧
-    (privPkcs8Pem C kb).NoPanic :=
+    (privRSA C kb).NoPanic ∧ (privECDSA C kb).NoPanic ∧ (privCrypto C kb).NoPanic :=
   ⟨secretData_noPanic kb, symKeyMaterial_noPanic kb, pubRSA_noPanic C kb, pubECDSA_noPanic C kb,
     pubCrypto_noPanic C kb, pubPkixPem_noPanic C kb, privRSA_noPanic C kb, privECDSA_noPanic C kb,
-    privCrypto_noPanic C kb, privPkcs8Pem_noPanic C kb⟩
+    privCrypto_noPanic C kb⟩
 
 /-- 1c. a metadata-only object (no KeyValue) and a wrapped one give errors. -/
 theorem missing_material_is_error (C : CryptoOps) (f c : Nat) (w : Bytes) :
@@ -79,7 +126,8 @@ theorem old_accessors_can_panic (C : CryptoOps) :
 /-- 2'. in terms of the uniform runner: the old code has a panicking (accessor, payload) pair. -/
 theorem old_run_can_panic (C : CryptoOps) :
     ∃ a r m, runOld C a r = .panic m ∧ ∀ msg, run C a r ≠ .panic msg :=
-  ⟨.kbMaterial, respOf (.privateKey (metadataOnly fPKCS1)), _, rfl, accessor_total C _ _⟩
+  ⟨.kbMaterial, respOf (.privateKey (metadataOnly fPKCS1)), _, rfl,
+    accessor_total_except_pem C _ _ (by decide)⟩
 
 /-! ## 2. Big integers and byte strings in the three encodings -/
 
@@ -173,11 +221,13 @@ theorem selectors_honour_request :
     symmetricFormat 0 = kfRAW ∧ symmetricFormat kfRAW = kfRAW ∧ symmetricFormat kfTransparent = kfTransparent := by
   decide
 
-/-- 10b. the register builders never panic, except `key.Primes[1]` on an RSA private key that has fewer
-    than two primes (transparent format). -/
+/-- 10b. the register builders never panic in their own code, except `key.Primes[1]` on an RSA private
+    key that has fewer than two primes (transparent format); otherwise a panic is one of
+    `x509.MarshalPKCS8PrivateKey`. -/
 theorem register_panic_only (C : CryptoOps) (kf : Nat) (ver : Nat × Nat) (key : AnyKey C) (m : String)
     (h : register C kf ver key = .panic m) :
-    ∃ k, key = .rsaPriv k ∧ (C.rsaPrivParts k).primes.length < 2 ∧ rsaPrivFormat kf = kfTransparent :=
+    (∃ k, key = .rsaPriv k ∧ (C.rsaPrivParts k).primes.length < 2 ∧ rsaPrivFormat kf = kfTransparent) ∨
+    (∃ pk, C.marshalPKCS8 pk = .panic m) :=
   Key.register_panic_only C kf ver key m h
 
 /-- 11. the version switch: `TransparentEC*` from 1.3 on, `TransparentECDSA*` before. -/
@@ -254,22 +304,24 @@ theorem key_roundtrip (C : Crypto) (kf : Nat) (ver : Nat × Nat) (enc : Enc) (ke
   exact extract_register C kf ver key hv o h
 
 /-- 13a. in all cases: the round trip gives the key, or the builder refused it with an error (marshal
-    error of the standard library, unsupported curve, length overflow) — never another key, never an
-    error of transport or extraction. -/
+    error of the standard library, unsupported curve, length overflow), or the standard library panicked
+    while marshalling the caller's own key — never another key, never an error of transport or extraction. -/
 theorem key_roundtrip_or_refused (C : Crypto) (kf : Nat) (ver : Nat × Nat) (enc : Enc)
     (key : AnyKey C.toCryptoOps) (hv : Valid key) :
     roundtrip C.toCryptoOps kf ver enc key = .ok key.content ∨
-    ∃ e, register C.toCryptoOps kf ver key = .err e ∧ roundtrip C.toCryptoOps kf ver enc key = .err e := by
+    (∃ e, register C.toCryptoOps kf ver key = .err e ∧ roundtrip C.toCryptoOps kf ver enc key = .err e) ∨
+    (∃ pk m, C.marshalPKCS8 pk = .panic m) := by
   cases h : register C.toCryptoOps kf ver key with
   | ok o => exact Or.inl (key_roundtrip C kf ver enc key hv o h)
-  | err e => exact Or.inr ⟨e, rfl, by simp [roundtrip, h]⟩
+  | err e => exact Or.inr (Or.inl ⟨e, rfl, by simp [roundtrip, h]⟩)
   | panic m =>
-    exfalso
-    obtain ⟨k, hk, hlen, _⟩ := Key.register_panic_only _ kf ver key m h
-    subst hk
-    obtain ⟨p, q, hp⟩ := hv
-    rw [hp] at hlen
-    simp at hlen
+    rcases Key.register_panic_only _ kf ver key m h with ⟨k, hk, hlen, _⟩ | ⟨pk, hpk⟩
+    · exfalso
+      subst hk
+      obtain ⟨p, q, hp⟩ := hv
+      rw [hp] at hlen
+      simp at hlen
+    · exact Or.inr (Or.inr ⟨pk, m, hpk⟩)
 
 /-- 14. the dynamically typed accessors (`CryptoPrivateKey`, `CryptoPublicKey`, `GetResponsePayload.
     PrivateKey/PublicKey`) return the same key as the typed ones, on every key block. -/
@@ -294,23 +346,35 @@ theorem rsa_multiprime_truncated (C : Crypto) (kf : Nat) (k : C.RsaPriv) (p q : 
 
 /-! ## 5. Non-vacuity: the laws of `Crypto` are satisfiable and the hypotheses of `key_roundtrip` hold -/
 
-/-- the toy standard library satisfies every law; every toy key is valid and accepted by the builders
-    (small moduli), so `key_roundtrip` applies to all of them. -/
+/-- the toy standard library satisfies every law; every toy RSA key is valid and accepted by the builders
+    (moduli below 2^(2^31)), so `key_roundtrip` applies to all of them. -/
 example (kf : Nat) (ver : Nat × Nat) (enc : Enc) (k : Toy.RsaPriv) (h : bitLen k.n ≤ maxInt32) :
     roundtrip Toy.crypto.toCryptoOps kf ver enc (.rsaPriv k) = .ok (.rsaPriv k) := by
   have hv : Valid (C := Toy.crypto.toCryptoOps) (.rsaPriv k) := ⟨k.p, k.q, rfl⟩
-  rcases key_roundtrip_or_refused Toy.crypto kf ver enc (.rsaPriv k) hv with h1 | ⟨e, h1, _⟩
-  · exact h1
-  · exfalso
-    have hlen : ¬ bitLen (Toy.crypto.toCryptoOps.rsaPrivParts k).n > maxInt32 := by
-      show ¬ bitLen (k.n : Int) > maxInt32
-      omega
-    simp only [register, registerRsaPriv, hlen, if_false] at h1
-    split at h1
-    · cases h1
-    · split at h1
-      · simp [Toy.crypto, Toy.ops, Toy.marshalPKCS8] at h1
-      · split at h1 <;> cases h1
+  have hlen : ¬ bitLen (Toy.crypto.toCryptoOps.rsaPrivParts k).n > maxInt32 := by
+    show ¬ bitLen (k.n : Int) > maxInt32
+    omega
+  have hm : Toy.crypto.toCryptoOps.marshalPKCS8 (.rsa k) = .ok (3 :: Toy.serRsaPriv k) := rfl
+  cases hr : register Toy.crypto.toCryptoOps kf ver (.rsaPriv k) with
+  | ok o => exact key_roundtrip Toy.crypto kf ver enc (.rsaPriv k) hv o hr
+  | err e =>
+    exfalso
+    simp only [register, registerRsaPriv, hlen, if_false, hm] at hr
+    split at hr
+    · cases hr
+    · split at hr
+      · cases hr
+      · split at hr <;> cases hr
+  | panic m =>
+    exfalso
+    simp only [register, registerRsaPriv, hlen, if_false, hm] at hr
+    split at hr
+    · cases hr
+    · split at hr
+      · cases hr
+      · split at hr
+        · cases hr
+        · rcases rsaPrivFormat_mem kf with h | h | h <;> contradiction
 
 /-- concrete instances, evaluated: an RSA key in the transparent format through JSON, an EC private key
     in the transparent format below and above 1.3, an EC public key through XML. -/
